@@ -85,6 +85,7 @@ type Node struct {
 	DumpAll   bool // dump every persistent store (else: the consensus-relevant subset)
 	cur       *BlockObs
 	LastObs   *BlockObs
+	PreBegin  func(ctx sdk.Context) // one-shot, runs at the start of the next block on the block's context
 	storeKeys []storeRef
 	Opens     int
 }
@@ -186,6 +187,11 @@ func (n *Node) Open() {
 	app.SetBeginBlocker(func(ctx sdk.Context) (sdk.BeginBlock, error) {
 		if n.Observe && n.cur != nil {
 			n.cur.BeforeBgn = n.DumpCtx(ctx)
+		}
+		if f := n.PreBegin; f != nil {
+			// a scripted action on the block's own context (what an upgrade handler would do), or a read-only probe
+			n.PreBegin = nil
+			f(ctx)
 		}
 		return app.BeginBlocker(ctx)
 	})
